@@ -323,6 +323,73 @@ fn long_pieces<V: Full>(prop: &mut Property, ctx: &Ctx) {
     }
 }
 
+/// a token relabelled to the header of a payload type with another encoding suffix fails authentication: the other
+/// type's decoder and validator stay silent
+fn suffix_relabel<V: Full>(prop: &mut Property) {
+    use crate::payload::{RecC, RecCValidator};
+    let name = V::NAME;
+    prop.subs.push(
+        Sub::new(format!("{name}/failing-suffix-relabel"), 4, "{local, public} x {vN. -> vNc., vNc. -> vN.}: the relabelled token is unsealed with the recording payload type that owns the new header: no payload decode, no validation", move |idx, describe| {
+            let local = idx % 2 == 0;
+            let add = idx / 2 == 0;
+            let mut o = Outcome::new();
+            if describe {
+                o.sample = Some(json!({"backend": name, "local": local, "direction": if add { "vN. -> vNc." } else { "vNc. -> vN." }}));
+            }
+            let ks = keys::keyset::<V>(false, 0);
+            let lk = keys::local::<V>(&ks.locals[2].bytes);
+            let sk = keys::secret::<V>(&ks.secrets[0].bytes);
+            let pk = sk.public_key();
+            let msg = msg_for(9, true);
+            let purpose = if local { "local" } else { "public" };
+            let (plain, suffixed) = (format!("v{}.{purpose}.", V::VER), format!("v{}c.{purpose}.", V::VER));
+            env_reset();
+            let sealed = subject(|| -> Result<String, PasetoError> {
+                Ok(match (local, add) {
+                    (true, true) => ops::seal_local_with::<V, _, _>(&lk, Rec(msg.clone()), (), b"", &Nonce::Lib)?.to_string(),
+                    (true, false) => ops::seal_local_with::<V, _, _>(&lk, RecC(msg.clone()), (), b"", &Nonce::Lib)?.to_string(),
+                    (false, true) => ops::seal_public_with::<V, _, _>(&sk, Rec(msg.clone()), (), b"", &Nonce::Lib)?.to_string(),
+                    (false, false) => ops::seal_public_with::<V, _, _>(&sk, RecC(msg.clone()), (), b"", &Nonce::Lib)?.to_string(),
+                })
+            });
+            let Ok(Ok(tok)) = sealed else {
+                o.violate_env(format!("{name}/suffix-relabel/seal"), "cannot seal".to_string(), json!({}));
+                return o;
+            };
+            let (from, to) = if add { (&plain, &suffixed) } else { (&suffixed, &plain) };
+            let Some(rest) = tok.strip_prefix(from.as_str()) else { return o };
+            let relabelled = format!("{to}{rest}");
+            env_reset();
+            env_set(|e| e.decode_requires_prefix = Some(b"OK".to_vec()));
+            let r = subject(|| -> Result<usize, PasetoError> {
+                Ok(match (local, add) {
+                    (true, true) => relabelled.parse::<SealedToken<V, Local, RecC, ()>>()?.decrypt(&lk, &RecCValidator)?.claims.0.len(),
+                    (false, true) => relabelled.parse::<SealedToken<V, Public, RecC, ()>>()?.verify(&pk, &RecCValidator)?.claims.0.len(),
+                    (true, false) => relabelled.parse::<SealedToken<V, Local, Rec, ()>>()?.decrypt(&lk, &RecValidator)?.claims.0.len(),
+                    (false, false) => relabelled.parse::<SealedToken<V, Public, Rec, ()>>()?.verify(&pk, &RecValidator)?.claims.0.len(),
+                })
+            });
+            let ev = env_events();
+            env_reset();
+            let called: Vec<&Event> = ev.iter().filter(|e| matches!(e, Event::PayloadDecode(_) | Event::Validate(_))).collect();
+            match r {
+                Err(p) => o.violate(format!("{name}/suffix-relabel/panic"), p, json!({"token": relabelled})),
+                Ok(res) => {
+                    if !called.is_empty() {
+                        o.violate(format!("{name}/suffix-relabel/callbacks"), format!("a token sealed as {from}... and relabelled {to}...: the other payload type's decoder / validator ran ({} events), result ok = {}", called.len(), res.is_ok()), json!({"token": relabelled}));
+                    } else if res.is_err() {
+                        o.class("silent-rejection");
+                    } else {
+                        o.violate(format!("{name}/suffix-relabel/accepted"), "relabelled token accepted".to_string(), json!({"token": relabelled}));
+                    }
+                }
+            }
+            o
+        })
+        .witness(&["silent-rejection"]),
+    );
+}
+
 /// tokens whose footer was altered on the wire into bytes that decode to the same typed value: they fail
 /// authentication like any other altered footer, so the payload decoder and the validator must stay silent
 fn value_preserving_footer<V: Full>(prop: &mut Property) {
@@ -412,6 +479,12 @@ pub fn build(ctx: &Ctx) -> Property {
     long_pieces::<backends::V3L>(&mut p, ctx);
     long_pieces::<backends::V4>(&mut p, ctx);
     long_pieces::<backends::V4S>(&mut p, ctx);
+    suffix_relabel::<backends::V1>(&mut p);
+    suffix_relabel::<backends::V2>(&mut p);
+    suffix_relabel::<backends::V3>(&mut p);
+    suffix_relabel::<backends::V3L>(&mut p);
+    suffix_relabel::<backends::V4>(&mut p);
+    suffix_relabel::<backends::V4S>(&mut p);
     value_preserving_footer::<backends::V1>(&mut p);
     value_preserving_footer::<backends::V2>(&mut p);
     value_preserving_footer::<backends::V3>(&mut p);
